@@ -42,7 +42,9 @@ type vfC17T interface {
 
 // vfC17Dirs are the directories of the tree, relative to its root.  "allowedx"
 // and "secret/allowed" are look-alikes of "allowed".
-var vfC17Dirs = []string{"allowed", "allowed/sub", "allowedx", "secret", "secret/allowed", "userfilters"}
+// "data" is the data directory of the server itself: places below it are
+// candidate locations like any other.
+var vfC17Dirs = []string{"allowed", "allowed/sub", "allowedx", "secret", "secret/allowed", "userfilters", "data", "data/userfilters"}
 
 // vfC17FileNames are the files of the tree, relative to its root.
 var vfC17FileNames = []string{
@@ -58,6 +60,8 @@ var vfC17FileNames = []string{
 	"secret/allowed/list1.txt",
 	"userfilters/x[1].txt",
 	"userfilters/x1.txt",
+	"data/own.txt",
+	"data/userfilters/own.txt",
 	"top.txt",
 	"allowed/LIST2.txt",
 }
@@ -779,7 +783,7 @@ func vfC17NewWorld(t vfC17T, kinds []string) (w *vfC17World) {
 		t:        t,
 		base:     base,
 		root:     base + "/t",
-		dataDir:  base + "/data",
+		dataDir:  base + "/t/data",
 		stub:     &vfC17Stub{urls: map[string]int{}, fail: map[string]bool{}},
 		locs:     map[string]vfC17Loc{},
 		readable: map[string]bool{},
@@ -1068,7 +1072,7 @@ func (w *vfC17World) scan(what string, bodies ...string) {
 	for i, b := range bodies {
 		texts[fmt.Sprintf("response %d", i)] = b
 	}
-	err := filepath.WalkDir(w.dataDir, func(p string, e fs.DirEntry, err error) error {
+	err := filepath.WalkDir(w.dataDir+"/"+filterDir, func(p string, e fs.DirEntry, err error) error {
 		if err != nil || e.IsDir() {
 			return err
 		}
